@@ -69,7 +69,7 @@ TESTED_NOT_PROVED = [
     "networkx connected_components / is_strongly_connected / strongly_connected_components agree with the model's closures (per input)",
     "textbook deficiencies equal the literature values (per network)",
     "deficiency >= 0 and sum of class deficiencies <= deficiency are PROVED for the model (C19_nonneg, C19_linkage_sum, C19_api_linkage_sum); the oracle also checks them per input on the implementation's numbers",
-    "explain() / __repr__ / as_dict() key sets / conclusion strings: asserted per input in the adapter against the stored fields (not modelled)",
+    "as_dict() key sets and the equality of the access paths (properties, as_dict(), private fields): asserted per input in the adapter",
 ]
 LEVEL_TEXT = ("Machine-checked proof (Coq) about executable models of DeficiencyAnalyzer, for every network: the complex list is duplicate free "
               "and consists exactly of the reactant and product vectors of the reactions (equal vectors iff equal multisets), the linkage classes "
@@ -82,7 +82,7 @@ LEVEL_TEXT = ("Machine-checked proof (Coq) about executable models of Deficiency
               "builder and the undirected-input conversion are proved to refine the label-level model. The models are compared with the Python code "
               "(complex list, arcs, classes, all integers and flags, class deficiencies, result / error code and every stored field after every call, raw attributed "
               "graphs) on every run over an exhaustive small scope, random, textbook, large and adversarial networks; numpy's float ranks are compared with the certified exact ranks per input.")
-LEVEL_NOTE = ("Universal: all 49 model theorems and checker soundness. Per input: float ranks vs certified ranks; networkx component routines vs "
+LEVEL_NOTE = ("Universal: all 50 model theorems and checker soundness. Per input: float ranks vs certified ranks; networkx component routines vs "
               "the model's closures; float part of nondegeneracy_test (oracle inputs). Trusted: Coq kernel, MathComp, models + encoders. "
               "networkx/numpy results are compared, not trusted.")
 TECHNIQUE = ("Coq proof about Gallina models (stdlib lists: walk invariant, lib/Reach saturation, API state-machine invariant, identifier-level refinement; MathComp: rank of Y*Ia, kernel of the incidence "
@@ -192,8 +192,11 @@ def _probe(X, k):
         if isinstance(X, CRNHyperGraph):
             hypergraph_to_bipartite(X, include_role=False, include_isolated_species=False)
     elif k == 1:
-        stoichiometric_rank(X, tol=1.0)
-        S = stoichiometric_matrix(X)
+        try:
+            stoichiometric_rank(X, tol=1.0)
+            S = stoichiometric_matrix(X)
+        except ValueError:                    # the network has no reaction at this point of the script
+            return
         try:
             S[:] = 0
         except Exception:
@@ -316,16 +319,24 @@ def _analyze_api(case, Xv):
         a.deficiency_one_structural["regular"] = "y"
         a.summary.n_complexes = 99
         return a.compute_crn_deficiency()
-    if v == "multidi":                       # a DIRECTED multigraph with the multiplicities written as parallel arcs (one arc per molecule)
+    if v in ("multidi", "multidi-stoich", "multidi-mixed", "multi-mixed"):
+        # the SAME network in the other accepted encodings: a multigraph in which a coefficient c is written as c parallel unit arcs
+        # (one arc per molecule, every second one without a stoich attribute), as one arc with stoich c, or mixed (c - 1 and 1):
+        # parallel incidences ADD UP in _complex_vectors and in build_S_minus_plus (lhs[idx] += coeff per arc)
         import networkx as nx
-        M = nx.MultiDiGraph()
+        M = nx.MultiGraph() if v == "multi-mixed" else nx.MultiDiGraph()
         M.add_nodes_from(Xv.nodes(data=True))
         for u, w, d in Xv.edges(data=True):
-            for j in range(int(d.get("stoich", 1))):
-                dd = dict(d, stoich=1)
-                if j % 2:
+            c = int(d.get("stoich", 1))
+            parts = [c] if v == "multidi-stoich" or c == 1 else [1] * c if v == "multidi" else [c - 1, 1]
+            for j, pc in enumerate(parts):
+                dd = dict(d, stoich=pc)
+                if pc == 1 and j % 2:
                     dd.pop("stoich")         # the default coefficient
-                M.add_edge(u, w, **dd)
+                if v == "multi-mixed" and j % 2:
+                    M.add_edge(w, u, **dd)   # an undirected edge may be listed from either end
+                else:
+                    M.add_edge(u, w, **dd)
         return DeficiencyAnalyzer(M).compute_crn_deficiency(run_nondegeneracy=True)
     if v in ("und", "multi"):
         U = _undirected_view(Xv, v == "multi")
@@ -468,7 +479,8 @@ def _dump(a):
         assert set(one) == {"hypotheses_satisfied", "deficiency", "linkage_deficiencies", "regular", "conclusion"}
         assert one["conclusion"].startswith("Deficiency One hypotheses (Feinberg, 1987, 1988) are satisfied") == bool(one["hypotheses_satisfied"])
         assert one["conclusion"].startswith("Deficiency One hypotheses are not satisfied") == (not one["hypotheses_satisfied"])
-        o_one = _some([bool(one["hypotheses_satisfied"]), int(one["deficiency"]), [int(x) for x in one["linkage_deficiencies"]], bool(one["regular"])])
+        o_one = _some([bool(one["hypotheses_satisfied"]), int(one["deficiency"]), [int(x) for x in one["linkage_deficiencies"]], bool(one["regular"]),
+                       str(one["conclusion"])])
     o_nd = None
     if nd is not None:
         assert dict(d["nondegeneracy"]) == dict(nd)
@@ -477,7 +489,7 @@ def _dump(a):
         assert all(set(p) == {"max_index", "max_value", "matches_max_complex"} and p["max_value"] == 1.0 for p in nd["per_basis"])
         o_nd = _some([int(nd["nullity"]), [[int(p["max_index"]), bool(p["matches_max_complex"])] for p in nd["per_basis"]],
                       bool(nd["largest_relevant_present"]), int(nd["max_complex_size"]), len(nd["basis"]) == nd["nullity"]])
-    return [o_su, _some([int(x) for x in ld]) if ld is not None else None, o_one, o_nd]
+    return [o_su, _some([int(x) for x in ld]) if ld is not None else None, o_one, o_nd, a.explain(), repr(a)]     # + the two text views
 
 
 def _tamper(a):
@@ -1063,9 +1075,10 @@ def gen_cases(tier, rng):
     cases += ADV.same_shape_histories(rng, nrand=40 if tier == "quick" else 400)
     cases += ADV.degenerate(rng)
     cases += ADV.api_surface(rng)
+    cases += ADV.encodings(rng, 40 if tier == "quick" else 600)
     cases += API.fixed() + API.random_scripts(rng, 120 if tier == "quick" else 1500)
     cases += API.raw_cases(rng, 60 if tier == "quick" else 1500)
-    cases += API.exhaustive_scripts() + API.exhaustive_attributes()
+    cases += API.exhaustive_scripts() + API.exhaustive_attributes() + API.exhaustive_arc_attributes()
     cases += ADV.large(rng, sizes=(24, 100) if tier == "quick" else (24, 40, 64, 100, 128))
     cases.append(API.hundred_classes(100))
     cases += ADV.multi_class(rng, count=24 if tier == "quick" else 240)
